@@ -28,6 +28,11 @@ OMEN_B = {'ngram': 2, 'alphabet': ['a', 'b', 'c'], 'ip': {'a': 0, 'b': 1, 'c': 2
 OMEN_A = dict(R.DEFAULT_OMEN, keyspace={1: 3, 2: 3, 3: 2}, omen_prob=[(1, .125), (2, .0625), (3, .03125)])
 # levels of equal probability form ONE Markov pre-terminal: the limit has to be carried from level to level inside it
 OMEN_T = dict(R.DEFAULT_OMEN, keyspace={1: 3, 2: 3, 3: 2}, omen_prob=[(1, .125), (2, .125), (3, .03125)])
+# ... three and four levels in one pre-terminal: what is left of the limit after the second level is not what was left after the first
+OMEN_T3 = dict(R.DEFAULT_OMEN, keyspace={1: 3, 2: 3, 3: 2}, omen_prob=[(1, .125), (2, .125), (3, .125)])
+OMEN_T4 = {'ngram': 2, 'alphabet': ['x', 'y', 'z'], 'ip': {'x': 0, 'y': 0, 'z': 1}, 'ep': {},
+           'cp': {'xx': 0, 'xy': 0, 'xz': 0, 'yx': 1, 'yy': 1, 'zx': 0, 'zy': 0, 'zz': 2}, 'ln': [10, 0, 1],
+           'keyspace': {1: 1, 2: 1, 3: 1, 4: 1}, 'omen_prob': [(1, .25), (2, .125), (3, .125), (4, .125), (5, .125)]}
 OMEN_0 = dict(OMEN_B, omen_prob=[(1, .125), (2, 0.0), (3, 0.0)])
 # an OMEN model trained on mixed-case passwords generates mixed-case strings, with or without --all_lower
 OMEN_U = {'ngram': 2, 'alphabet': ['a', 'B'], 'ip': {'a': 0, 'B': 1}, 'ep': {}, 'cp': {'aa': 0, 'aB': 1, 'Ba': 0, 'BB': 2}, 'ln': [10, 0, 1],
@@ -50,6 +55,8 @@ def specs(tier):
         (tie, [('A2D1', .6), ('A1A2', .4)], OMEN_A),  # mask groups of 4 and 2 equally probable masks, not in last position
         (t0, [('M', .5), ('A1D1', .5)], OMEN_T),
         (t0, [('M', .6), ('A1', .4)], OMEN_U),
+        (t0, [('M', .5), ('A1D1', .5)], OMEN_T3),
+        (t0, [('D1', .4), ('M', .6)], OMEN_T4),
         (t0, [('D2', .5), ('M', .5)], OMEN_0),
         # many single-guess pre-terminals of one probability: whatever the queue does to bound its memory, the order among them must not depend on -n
         (t0, [(st, 1 / 8) for st in ('D2', 'K4', 'X1', 'D2K4', 'K4D2', 'D2X1', 'X1K4', 'K4X1')], OMEN_A),
